@@ -118,7 +118,8 @@ impl SymExpr {
             }
             Self::Neg(x) => {
                 if x.is_positive() {
-                    (i32::MIN, -1)
+                    // `x` is >= 0 (not > 0), so `-x` may be zero.
+                    (i32::MIN, 0)
                 } else {
                     (i32::MIN, i32::MAX)
                 }
